@@ -71,7 +71,7 @@ type Query struct {
 
 // SessOp is one operation on a re-used iterator.
 type SessOp struct {
-	Op string `json:"op"` // seek | first | last | next
+	Op string `json:"op"` // seek | first | last | next | write (another client puts a NEW key next to target T; engine sessions only)
 	T  int    `json:"t"`  // seek target index
 	N  int    `json:"n"`  // live entries to read afterwards
 }
@@ -174,6 +174,40 @@ func drain(it iterator.Iterator, max int) ([]kv, *failure) {
 		}
 		prev = k
 		if !it.IsTombstone() {
+			v := it.Value()
+			if v == nil {
+				v = []byte{}
+			}
+			out = append(out, kv{k, append([]byte{}, v...)})
+			if max > 0 && len(out) >= max {
+				return out, nil
+			}
+		}
+		it.Next()
+		n++
+		if n > 200000 {
+			return out, &failure{"endless", "iteration does not terminate"}
+		}
+	}
+	return out, nil
+}
+
+// drainSkipping is drain with a set of keys that are left out of the result
+// (they still take part in the order check).
+func drainSkipping(it iterator.Iterator, max int, skip map[string]bool) ([]kv, *failure) {
+	if len(skip) == 0 {
+		return drain(it, max)
+	}
+	var out []kv
+	n := 0
+	var prev []byte
+	for it.Valid() {
+		k := append([]byte{}, it.Key()...)
+		if prev != nil && bytes.Compare(k, prev) <= 0 {
+			return out, &failure{"order", fmt.Sprintf("iterator yields %q after %q (not strictly ascending)", trunc(k), trunc(prev))}
+		}
+		prev = k
+		if !it.IsTombstone() && !skip[string(k)] {
 			v := it.Value()
 			if v == nil {
 				v = []byte{}
@@ -435,9 +469,32 @@ func execQuery(e *engine.EngineFacade, tx txLike, over []drive.TxOp, m drive.Mod
 		}
 		want := expected(m, p, over, keep)
 		pos := -1 // index in want of the next live entry the iterator must yield; -1 = not positioned
+		// keys another client wrote after this iterator was created: the scan may or
+		// may not show them ("every key that existed before it started and is not
+		// written during it"), so they are taken out of what it yields
+		during := map[string]bool{}
 		for oi, op := range q.Ops {
 			octx := fmt.Sprintf("%s op %d (%s)", ctx, oi, op.Op)
 			switch op.Op {
+			case "write":
+				if tx != nil {
+					continue
+				}
+				base := bound(op.T)
+				if base == nil {
+					base = []byte{'m'}
+				}
+				fk := append(append([]byte{}, base...), 0x00, '~', 'w', byte(len(m)>>8), byte(len(m)))
+				if _, exists := m[string(fk)]; exists {
+					continue
+				}
+				fv := []byte{0xEE, byte(oi)}
+				if err := e.Put(fk, fv); err != nil {
+					return &failure{"foreign-write-error@" + ctx, err.Error()}
+				}
+				m[string(fk)] = fv // an acknowledged write: later queries must see it
+				during[string(fk)] = true
+				continue
 			case "first":
 				it.SeekToFirst()
 				pos = 0
@@ -458,6 +515,12 @@ func execQuery(e *engine.EngineFacade, tx txLike, over []drive.TxOp, m drive.Mod
 				pos = sort.Search(len(want), func(i int) bool { return bytes.Compare(want[i].k, t) >= 0 })
 			case "last":
 				it.SeekToLast()
+				if it.Valid() && during[string(it.Key())] {
+					// stands on a key written during the session: nothing to judge, and
+					// nothing defined to continue from
+					pos = -1
+					continue
+				}
 				if f := checkLast(it, want, keep, ctx); f != nil {
 					f.msg = octx + ": " + f.msg
 					return f
@@ -472,10 +535,10 @@ func execQuery(e *engine.EngineFacade, tx txLike, over []drive.TxOp, m drive.Mod
 					continue // not positioned yet: nothing defined to continue from
 				}
 			}
-			if op.N <= 0 {
+			if op.N <= 0 || pos < 0 {
 				continue
 			}
-			got, f := drain(it, op.N)
+			got, f := drainSkipping(it, op.N, during)
 			if f != nil {
 				return &failure{f.sig + "@" + ctx, octx + ": " + f.msg}
 			}
@@ -945,7 +1008,7 @@ func genCase(t *rapid.T) Case {
 		n := rapid.IntRange(2, 8).Draw(t, "nsess")
 		for j := 0; j < n; j++ {
 			q.Ops = append(q.Ops, SessOp{
-				Op: rapid.SampledFrom([]string{"seek", "seek", "seek", "seek", "first", "last", "next"}).Draw(t, "sop"),
+				Op: rapid.SampledFrom([]string{"seek", "seek", "seek", "seek", "first", "last", "next", "write", "write"}).Draw(t, "sop"),
 				T:  rapid.IntRange(0, len(tg)-1).Draw(t, "st"),
 				N:  rapid.SampledFrom([]int{0, 1, 1, 2, 3, 6}).Draw(t, "sn"),
 			})
